@@ -2,7 +2,7 @@
 from ..engine import site_of
 from ..facts import op_place, op_local, op_const, AnchorError
 from ..callgraph import callee_is
-from ..mirutil import loops_of, success_edges, origin, deep_root
+from ..mirutil import loops_of, success_edges, origin, deep_root, root_place
 from ..totality import check_region, closure_region
 from ..lossy import decode_sites, check_site
 from .. import anchors as A
@@ -61,9 +61,48 @@ def r2_lossy_codec_repaired(cx):
     cx.floor("beacon-consumers", n, 1, "positional consumers of decoded beacon bytes")
 
 
+def r3_age_window_is_modular(cx):
+    """The hour stamp is a 16-bit counter (now / 3600 & 0xffff) that wraps: 'too old or too far in the future' must
+    be decided in modular arithmetic, by comparing the wrapped differences in both directions with the limit.
+    Idiom rule: two wrapping subtractions of (now, then) with swapped operands, each compared with the limit."""
+    prog = cx.prog
+    from ..mirutil import forward_taint
+    fns = [b for b in prog.bodies if b.file == "src/beacon.rs" and b.kind != "closure" and
+           any(callee_is(t, "BeaconSerializer::now_hour_16") for _bi, t in b.calls()) and any(callee_is(t, "util::Encoder::read_u16") for _bi, t in b.calls())]
+    cx.exact("age-check-functions", len(fns), 1, "functions comparing the beacon's hour stamp with the current one")
+    for b in fns:
+        cx.touch(b)
+        now_l = [t["dest"]["l"] for _bi, t in b.calls() if callee_is(t, "BeaconSerializer::now_hour_16")]
+        t_now = forward_taint(b, seed_locals=now_l, mut_args=False)
+        subs = []
+        for ci, ct in b.calls():
+            c = ct.get("callee") or {}
+            is_wsub = (c.get("name") == "sub" and "Wrapping" in c.get("full", "")) or c.get("name") == "wrapping_sub"
+            if is_wsub and len(ct["args"]) == 2:
+                a0 = root_place(b, op_place(ct["args"][0]))["l"] if op_place(ct["args"][0]) else None
+                a1 = root_place(b, op_place(ct["args"][1]))["l"] if op_place(ct["args"][1]) else None
+                subs.append((ci, a0 in t_now, a1 in t_now))
+        fwd = [x for x in subs if x[1] and not x[2]]
+        bwd = [x for x in subs if x[2] and not x[1]]
+        cx.check("both-directions-modular", len(fwd) >= 1 and len(bwd) >= 1, site_of(b),
+                 "the age test subtracts the two 16-bit hour stamps with wrap-around in both directions (now - then: %d, then - now: %d)" % (len(fwd), len(bwd)))
+        # non-modular distance functions on the stamps are rejected
+        bad = [ci for ci, ct in b.calls() if (ct.get("callee") or {}).get("name") in ("abs_diff", "checked_sub", "saturating_sub", "abs") and
+               any(op_place(a) is not None and root_place(b, op_place(a))["l"] in t_now for a in ct["args"])]
+        cx.check("no-linear-distance", not bad, site_of(b, bad[0]) if bad else site_of(b), "no non-modular distance (abs_diff / saturating_sub) is taken of the hour stamps")
+    # the stamp itself is 16 bits of hours
+    nh = [b for b in prog.bodies if b.path.endswith("BeaconSerializer::<TS>::now_hour_16")]
+    if len(nh) == 1:
+        b = nh[0]
+        divs = [op_const(s["rv"]["b"]) for bi, si, s in b.stmts() if s["k"] == "assign" and s["rv"]["k"] == "binop" and s["rv"]["op"] == "Div"]
+        masks = [op_const(s["rv"]["b"]) for bi, si, s in b.stmts() if s["k"] == "assign" and s["rv"]["k"] == "binop" and s["rv"]["op"] == "BitAnd" and op_const(s["rv"]["b"]) is not None]
+        cx.check("stamp-is-hours-mod-65536", divs == [3600] and masks == [0xffff], site_of(b), "the stamp is (now / 3600) & 0xffff (divisors %s, masks %s)" % (divs, masks))
+
+
 RULES = [
     ("C17.R1", r1_extraction_total, "beacon extraction is total: panic sites proved or reviewed; the scan advances"),
     ("C17.R2", r2_lossy_codec_repaired, "decoded beacon bytes are length-restored before positional use (base-62 drops leading zero bytes)"),
+    ("C17.R3", r3_age_window_is_modular, "the age window is decided in modular 16-bit arithmetic in both directions"),
 ]
 
 LEVEL_TEXT = ("Totality enumeration and a source-to-sink rule on MIR: every panic-capable construct reachable from BeaconSerializer::decode is enumerated; the "
